@@ -14,6 +14,7 @@ import (
 	"github.com/ipld/go-ipld-prime/codec/dagcbor"
 	"github.com/ipld/go-ipld-prime/codec/dagjson"
 	cidlink "github.com/ipld/go-ipld-prime/linking/cid"
+	"github.com/ipld/go-ipld-prime/node/basicnode"
 	"github.com/ipni/go-libipni/ingest/schema"
 	"github.com/libp2p/go-libp2p/core/crypto"
 	"github.com/libp2p/go-libp2p/core/peer"
@@ -328,9 +329,35 @@ func roundTrip(ad *schema.Advertisement, codec uint64) (*schema.Advertisement, e
 	return &out, nil
 }
 
+// roundTripGeneric is the other documented way of reading an advertisement:
+// the block is decoded into a generic node (no schema prototype, as a generic
+// traversal or link system loads it) and then handed to UnwrapAdvertisement,
+// which converts it.
+func roundTripGeneric(ad *schema.Advertisement, codec uint64) (*schema.Advertisement, error) {
+	n, err := ad.ToNode()
+	if err != nil {
+		return nil, err
+	}
+	var buf bytes.Buffer
+	nb := basicnode.Prototype.Any.NewBuilder()
+	if codec == uint64(multicodec.DagJson) {
+		if err = dagjson.Encode(n, &buf); err == nil {
+			err = dagjson.Decode(nb, &buf)
+		}
+	} else {
+		if err = dagcbor.Encode(n, &buf); err == nil {
+			err = dagcbor.Decode(nb, &buf)
+		}
+	}
+	if err != nil {
+		return nil, err
+	}
+	return schema.UnwrapAdvertisement(nb.Build())
+}
+
 func TestCheck(t *testing.T) {
 	r := vp.New("C05", "exploration",
-		"advertisements: product of {previous link} x {entries: NoEntries/real} x {0..2 addresses} x {metadata empty/non-empty} x {IsRm} x {extended providers: none, main only, 2, 3 (main at every position)} x {override} x {context ID 0/1/64 bytes}; signer = provider and signer != provider (also with the signer itself listed as an extended provider); key types per tier. Before every verification the ad's read-only methods (Validate, PreviousCid) are called and must leave it unchanged (address lists are not in lexical order). For each signed ad: verify, (without extended providers) sign through the plain Sign entry point and sign an already signed ad again with another key, sign a modified by-value copy and verify the original again (its bytes unchanged), verify after DAG-JSON and DAG-CBOR round trip, every single-value mutation (27 kinds), and for representative ads every single-bit flip and field-level replacement inside every signature envelope, and every assignment of signing keys {named identity, ad signer, unrelated} to the extended-provider entries. Non-trivial: every case other than verifying the untouched ad. Distinct = distinct (ad shape, keys, check).",
+		"advertisements: product of {previous link} x {entries: NoEntries/real} x {0..2 addresses} x {metadata empty/non-empty} x {IsRm} x {extended providers: none, main only, 2, 3 (main at every position)} x {override} x {context ID 0/1/64 bytes}; signer = provider and signer != provider (also with the signer itself listed as an extended provider); key types per tier. Before every verification the ad's read-only methods (Validate, PreviousCid) are called and must leave it unchanged (address lists are not in lexical order). For each signed ad: verify, (without extended providers) sign through the plain Sign entry point and sign an already signed ad again with another key, sign a modified by-value copy and verify the original again (its bytes unchanged), verify after DAG-JSON and DAG-CBOR round trip, both through BytesToAdvertisement and through a generic node handed to UnwrapAdvertisement (mutated ads too), every single-value mutation (27 kinds), and for representative ads every single-bit flip and field-level replacement inside every signature envelope, and every assignment of signing keys {named identity, ad signer, unrelated} to the extended-provider entries. Non-trivial: every case other than verifying the untouched ad. Distinct = distinct (ad shape, keys, check).",
 		"mutations that change no signed value (context ID of an ad without extended providers) must still verify",
 		"added/removed addresses are non-empty strings (an empty address does not change the undelimited signed payload, which the statement excludes)",
 		"envelope alterations are judged semantically (same decoded envelope = not an alteration)",
@@ -498,6 +525,22 @@ func TestCheck(t *testing.T) {
 			} else if err != nil || id != signer.ID {
 				r.Violation(fmt.Sprintf("verify:rejected-after-roundtrip:codec=%x", codec), key, fmt.Sprintf("ad no longer verifies after encode/decode: id=%s err=%v", id, err), nil)
 			}
+			// the same through a generic node and UnwrapAdvertisement: what
+			// comes back is the ad (fingerprint), and it verifies
+			var ad3 *schema.Advertisement
+			if pn, m := vp.Guard(func() { ad3, rerr = roundTripGeneric(ad, codec) }); pn {
+				r.Violation("roundtrip:panic", key, "generic node: "+firstLine(m), nil)
+				continue
+			}
+			if rerr != nil {
+				r.Violation("roundtrip:error", key, "generic node: "+rerr.Error(), nil)
+				continue
+			}
+			if id, err, pn, _ := verify(ad3); pn || err != nil || id != signer.ID {
+				r.Violation(fmt.Sprintf("verify:rejected-after-roundtrip-through-a-generic-node:codec=%x", codec), key, fmt.Sprintf("ad no longer verifies after encode, decode into a generic node and UnwrapAdvertisement: id=%s err=%v", id, err), nil)
+			} else if (ad3.ExtendedProvider == nil) != (ad.ExtendedProvider == nil) || (ad.ExtendedProvider != nil && (ad3.ExtendedProvider.Override != ad.ExtendedProvider.Override || len(ad3.ExtendedProvider.Providers) != len(ad.ExtendedProvider.Providers))) {
+				r.Violation(fmt.Sprintf("roundtrip:extended-providers-changed-through-a-generic-node:codec=%x", codec), key, "the extended providers of the unwrapped ad are not those of the ad that was encoded", nil)
+			}
 		}
 		// (c) single-value mutations
 		for _, mu := range mutations(c) {
@@ -532,10 +575,17 @@ func TestCheck(t *testing.T) {
 				}
 			}
 			// the mutated ad must also be rejected after a round trip through DAG-JSON
-			if signed && (s.ctxLen == 1 || deep) {
+			if signed && (s.ctxLen == 1 || deep || (s.ovr && s.nEP > 0)) {
 				if m2, rerr := roundTrip(m, uint64(multicodec.DagJson)); rerr == nil {
 					if _, err, _, _ := verify(m2); err == nil {
 						r.Violation("verify:accepted-changed-value-after-roundtrip:"+mu.name, key, "mutated ad verifies after DAG-JSON round trip", nil)
+					}
+				}
+				for _, codec := range []uint64{uint64(multicodec.DagJson), uint64(multicodec.DagCbor)} {
+					if m3, rerr := roundTripGeneric(m, codec); rerr == nil {
+						if _, err, _, _ := verify(m3); err == nil {
+							r.Violation("verify:accepted-changed-value-after-roundtrip-through-a-generic-node:"+mu.name, key, fmt.Sprintf("mutated ad (%s of %s) verifies after encoding (codec %x), decoding into a generic node and UnwrapAdvertisement", mu.name, s, codec), nil)
+						}
 					}
 				}
 			}
